@@ -3,12 +3,13 @@ from __future__ import annotations
 import ast
 from ..pat import Frag
 from ..src import norm, walk_no_nested, AnalysisError
-from ..loops import classify_while, _dominating_facts, _not_in
-from ..pyutil import parents
+from ..loops import classify_while
+from ..effects import module_summary, canon
+from ..inline import Opaque
 
 META = {
     'title': 'Information-content weights are conserved, counted once and monotone',
-    'technique': 'termination/visit idiom of the accumulation loop (global visited per start synset); dominance of POS folding',
+    'technique': 'effect summary of ic.compute (name-free normal form: locals inlined, loop variables positional, cells by creation): guards and loop context of every write to the weight table',
     'explanation': (
         'Conservation and monotonicity over all graphs and corpora are runtime sums and are not decided. The check decides the '
         'clause the documentation states - each word synset adds its weight to itself and to each hypernym ancestor once, however '
@@ -30,193 +31,233 @@ def _compute(ctx):
     return ctx.repo.func('ic', 'compute')
 
 
-def _accumulations(f):
-    out = []
-    for n in walk_no_nested(f.node):
-        if isinstance(n, ast.AugAssign) and isinstance(n.op, ast.Add) and isinstance(n.target, ast.Subscript) \
-                and isinstance(n.target.value, ast.Subscript) and norm(n.target.value.value) == 'freq':
-            out.append(n)
-    return out
+def _root(e):
+    while isinstance(e, (ast.Subscript, ast.Attribute)):
+        e = e.value
+    return e
+
+
+class _View:
+    """the writes of compute() to the weight table, read off its effect summary"""
+
+    def __init__(self, ctx):
+        self.f = _compute(ctx)
+        try:
+            _, self.E = module_summary(ctx, 'ic', 'compute')
+        except Opaque as exc:
+            raise AnalysisError(f'ic.compute cannot be summarised: {exc}')
+        news = [e for e in self.E if e.kind == 'new' and '_initialize(' in e.text]
+        self.freq = news[0].text if news else None
+        self.writes = []
+        for e in self.E:
+            if e.kind in ('aug', 'store') and e.lhs is not None and isinstance(e.lhs, ast.Subscript) and isinstance(e.lhs.value, ast.Subscript):
+                r = _root(e.lhs)
+                if isinstance(r, ast.Name) and r.id == self.freq:
+                    self.writes.append(e)
+        self.accs = [w for w in self.writes if canon(w.lhs.slice) != 'None']
+        self.totals = [w for w in self.writes if canon(w.lhs.slice) == 'None']
+
+    def loc(self, e=None):
+        return self.f.module.loc(e.node if e is not None else self.f.node)
+
+
+def _view(ctx):
+    return ctx.repo.cache('c15-view', lambda: _View(ctx))
 
 
 def r1_once_per_node(ctx, res):
-    f = _compute(ctx)
-    accs = [a for a in _accumulations(f) if norm(a.target.slice) != 'None']
+    v = _view(ctx)
     key = 'accumulation-present'
-    res.inst(key, f.module.loc(f.node), f'{[norm(a) for a in accs]}')
-    if len(accs) != 1:
-        res.find(key, f.module.loc(f.node), f'compute() is expected to add the weight to a synset in exactly one place, found {len(accs)}')
+    res.inst(key, v.loc(), f'{[a.text[:60] for a in v.accs]}')
+    if v.freq is None or not v.accs:
+        res.find(key, v.loc(), 'compute() no longer adds the weight to the synsets of the table returned by _initialize()')
         return
-    acc = accs[0]
-    loop = None
-    for p in parents(acc):
-        if isinstance(p, ast.While):
-            loop = p
-            break
-        if p is f.node:
-            break
+    for a in v.accs:
+        key = 'accumulation-guarded'
+        k = a.lhs.slice
+        popped = canon(k.value) if isinstance(k, ast.Attribute) and k.attr == 'id' else None
+        res.inst(key, v.loc(a), f'{a.text[:70]} when {sorted(a.guards)[:2]}')
+        if a.kind != 'aug' or a.op != '+=':
+            res.find(key, v.loc(a), f'the synset weight is written with `{a.text[:80]}` instead of being incremented')
+            continue
+        in_while = [c for c in a.ctx if c.startswith('while ')]
+        dedup_for = [c for c in a.ctx if c.startswith('for ') and any(w in c for w in ('set(', 'closure(', 'unique_list('))]
+        if not in_while and dedup_for:
+            continue          # accumulation over a de-duplicated set of ancestors
+        if popped is None or not in_while:
+            res.find(key, v.loc(a), f'the ancestor walk of compute() is neither a worklist loop over popped synsets nor an iteration over a '
+                                    f'de-duplicated set of ancestors (`{a.text[:80]}` in {a.ctx}): shared ancestors may be counted once per path')
+            continue
+        # guard `popped not in S` for a cell S
+        vis = None
+        for g in a.guards:
+            if g.startswith(popped + ' not in #'):
+                vis = g[len(popped) + len(' not in '):]
+        if vis is None:
+            res.find(key, v.loc(a), f'`{a.text[:80]}` is not guarded by a test of the popped synset against a visited set (guards: '
+                                    f'{sorted(a.guards)}): a synset that is queued twice - two hypernym paths, a redundant edge, a cycle - is '
+                                    f'counted twice, contradicting "added to each ancestor once"')
+            continue
+        adds = [e for e in v.E if e.kind == 'call' and e.op == 'add' and e.lhs is not None and canon(e.lhs) == vis and e.rhs is not None
+                and canon(e.rhs) == popped and e.ctx == a.ctx and e.guards == a.guards]
+        key = 'visited-recorded'
+        res.inst(key, v.loc(a), f'{vis}.add({popped}) under the same guard')
+        if not adds:
+            res.find(key, v.loc(a), f'the popped synset is not added to the visited set `{vis}` on the path that counts it')
+        key = 'visited-per-start'
+        news = [e for e in v.E if e.kind in ('new', 'store') and e.text.startswith(vis)]
+        res.inst(key, v.loc(a), f'{vis} created in {[n.ctx for n in news][:2]}')
+        widx = a.ctx.index(in_while[0])
+        want_ctx = a.ctx[:widx]
+        if not news or any(n.ctx != want_ctx for n in news) or len([c for c in want_ctx if c.startswith('for ')]) < 2:
+            res.find(key, v.loc(a), f'the visited set `{vis}` is not created once per (word, synset) start - it is created in '
+                                    f'{[n.ctx for n in news]} while the walk runs in {want_ctx}: weights of later synsets are not added to '
+                                    f'ancestors already seen, or one word\'s walk hides another\'s')
+    # termination idiom of the loop itself (see C11-R1): must be the pop-time test (G)
     key = 'accumulation-idiom'
-    if loop is None:
-        res.inst(key, f.module.loc(acc), 'not inside a worklist loop')
-        # acceptable alternative: accumulate over a de-duplicated set of ancestors
-        par_for = [p for p in parents(acc) if isinstance(p, ast.For)]
-        it = norm(par_for[0].iter) if par_for else ''
-        if not (par_for and ('set(' in it or 'closure(' in it or 'unique_list(' in it)):
-            res.find(key, f.module.loc(acc), 'the ancestor walk of compute() is no longer a guarded worklist loop nor an iteration over a '
-                                             'de-duplicated set of ancestors: shared ancestors may be counted once per path')
-        return
-    info = classify_while(f, loop)
-    res.inst(key, f.module.loc(loop), f'idiom {info.idiom}: {info.why}')
-    if info.idiom != 'G':
-        res.find(key, f.module.loc(loop),
-                 f'the ancestor walk of compute() uses idiom {info.idiom} ({info.why}): the weight must be added under a test of the '
-                 f'popped synset against one visited set per word synset; with a per-path set, or with a filter applied only when '
-                 f'hypernyms are queued, a hypernym reached over several paths can be popped - and counted - more than once '
-                 f'(diamond / redundant edge: probability of an inner node > its hypernym), contradicting "added to each ancestor once"')
-        return
-    v = info.visited
-    # the accumulation itself is on the guarded path
-    facts = [x for x in (_not_in(t, pol) for t, pol in _dominating_facts(acc, loop)) if x]
-    key = 'accumulation-guarded'
-    res.inst(key, f.module.loc(acc), f'dominated by {facts}')
-    if not any(vs == v for _, vs in facts):
-        res.find(key, f.module.loc(acc), f'`{norm(acc)}` is not dominated by the `not in {v}` test: the weight is added before the '
-                                         f'visited check')
-    # visited set created per start synset
-    key = 'visited-per-start'
-    creat = [n for n in walk_no_nested(f.node) if isinstance(n, (ast.Assign, ast.AnnAssign))
-             and any(isinstance(t, ast.Name) and t.id == v for t in (n.targets if isinstance(n, ast.Assign) else [n.target]))]
-    res.inst(key, f.module.loc(loop), f'{v} created at {[c.lineno for c in creat]}')
-    inner_for = next((p for p in parents(loop) if isinstance(p, ast.For)), None)
-    ok = False
-    for c in creat:
-        cf = next((p for p in parents(c) if isinstance(p, (ast.For, ast.While))), None)
-        if cf is inner_for and inner_for is not None:
-            ok = True
-    if not ok:
-        res.find(key, f.module.loc(loop), f'the visited set `{v}` is not created once per (word, synset) start (inside the loop over the '
-                                          f"word's synsets): weights of later synsets are not added to ancestors already seen")
-    # the walk follows hypernyms of the popped synset
+    loops = [n for n in walk_no_nested(v.f.node) if isinstance(n, ast.While)]
+    for lp in loops:
+        info = classify_while(v.f, lp)
+        res.inst(key, v.f.module.loc(lp), f'idiom {info.idiom}: {info.why}')
+        if info.idiom not in ('G', 'B'):
+            res.find(key, v.f.module.loc(lp),
+                     f'the ancestor walk of compute() uses idiom {info.idiom} ({info.why}): the weight must be added under a test of the '
+                     f'popped synset against one visited set per word synset; with a per-path set, or with a filter applied only when '
+                     f'hypernyms are queued, a hypernym reached over several paths can be popped - and counted - more than once '
+                     f'(diamond / redundant edge: probability of an inner node > its hypernym), contradicting "added to each ancestor once"')
     key = 'walk-follows-hypernyms'
-    src = norm(loop)
-    res.inst(key, f.module.loc(loop), 'agenda extended with the (cached) hypernyms of the popped synset')
-    if '.hypernyms()' not in src:
-        res.find(key, f.module.loc(loop), 'the ancestor walk no longer follows hypernyms()')
+    res.inst(key, v.loc(), 'agenda extended with the (cached) hypernyms of the popped synset')
+    if not any('.hypernyms()' in e.text for e in v.E if any(c.startswith('while ') for c in e.ctx)) and not \
+            any('hypernym' in c for a in v.accs for c in a.ctx):
+        res.find(key, v.loc(), 'the ancestor walk no longer follows hypernyms()')
+
+
+def _is_fold(p):
+    """`ADJ if X.pos == ADJ_SAT else X.pos`"""
+    if isinstance(p, ast.IfExp) and isinstance(p.test, ast.Compare) and len(p.test.ops) == 1 and isinstance(p.test.ops[0], ast.Eq):
+        l, r = norm(p.test.left), norm(p.test.comparators[0])
+        other = l if r == 'ADJ_SAT' else r if l == 'ADJ_SAT' else None
+        return other is not None and other.endswith('.pos') and norm(p.body) == 'ADJ' and norm(p.orelse) == other
+    return False
 
 
 def r2_pos_folding(ctx, res):
-    f = _compute(ctx)
-    loops = [n for n in walk_no_nested(f.node) if isinstance(n, ast.For) and norm(n.iter) == 'synsets']
-    if not loops:
-        raise AnalysisError('anchor vanished: loop over the synsets of a word in ic.compute')
-    lp = loops[0]
-    first_use = None
-    fold = None
-    member = None
-    for i, st in enumerate(lp.body):
-        if first_use is None and any(isinstance(x, ast.Subscript) and norm(x.value) == 'freq' for x in ast.walk(st)):
-            first_use = i
-        if isinstance(st, ast.If) and norm(st.test) in ('pos == ADJ_SAT', 'ADJ_SAT == pos') \
-                and any(norm(s) == 'pos = ADJ' for s in st.body):
-            fold = i
-        if isinstance(st, ast.If) and norm(st.test) == 'pos not in IC_PARTS_OF_SPEECH' and st.body \
-                and isinstance(st.body[-1], ast.Continue):
-            member = i
-    key = 'pos-folding-dominates'
-    res.inst(key, f.module.loc(lp), f'fold at {fold}, membership at {member}, first freq[...] use at {first_use}')
-    if first_use is None:
-        res.find(key, f.module.loc(lp), 'compute() no longer indexes freq[...] in the per-synset loop')
-    elif fold is None or fold > first_use:
-        res.find(key, f.module.loc(lp), 'freq[pos] is indexed before satellite adjectives are folded into adjectives (`if pos == ADJ_SAT: '
-                                        "pos = ADJ`): 's' synsets raise KeyError or are not counted as adjectives")
-    elif member is None or member > first_use:
-        res.find(key, f.module.loc(lp), 'freq[pos] is indexed before the `pos not in IC_PARTS_OF_SPEECH` test: other parts of speech '
-                                        'raise KeyError')
-    # all freq subscripts in compute use `pos` (the folded variable)
-    for x in walk_no_nested(f.node):
-        if isinstance(x, ast.Subscript) and norm(x.value) == 'freq':
-            k2 = f'freq-index:{norm(x.slice)}'
-            res.inst(k2, f.module.loc(x), 'freq indexed by the folded part of speech')
-            if norm(x.slice) != 'pos':
-                res.find(k2, f.module.loc(x), f'freq is indexed by `{norm(x.slice)}` instead of the folded `pos`')
+    v = _view(ctx)
+    if not v.writes:
+        raise AnalysisError('anchor vanished: writes to the weight table in ic.compute')
+    for w in v.writes:
+        p = w.lhs.value.slice
+        key = f'pos-folded:{"total" if w in v.totals else "synset"}'
+        res.inst(key, v.loc(w), canon(p))
+        if not _is_fold(p):
+            res.find(key, v.loc(w), f'the weight table is indexed by `{canon(p)}`: satellite adjectives must be folded into adjectives first '
+                                    f"(`ADJ if pos == ADJ_SAT else pos`), else 's' synsets raise KeyError or are not counted as adjectives")
+            continue
+        key = f'pos-membership:{"total" if w in v.totals else "synset"}'
+        res.inst(key, v.loc(w), f'{canon(p)} in IC_PARTS_OF_SPEECH')
+        if f'{canon(p)} in IC_PARTS_OF_SPEECH' not in w.guards and f'({canon(p)}) in IC_PARTS_OF_SPEECH' not in w.guards:
+            res.find(key, v.loc(w), f'`{w.text[:70]}` is not guarded by the `in IC_PARTS_OF_SPEECH` test of the folded part of speech: other '
+                                    f'parts of speech raise KeyError')
 
 
 def r3_total_once(ctx, res):
-    f = _compute(ctx)
-    tots = [a for a in _accumulations(f) if norm(a.target.slice) == 'None']
+    v = _view(ctx)
     key = 'total-incremented-once'
-    res.inst(key, f.module.loc(f.node), f'{[norm(t) for t in tots]}')
-    if len(tots) != 1:
-        res.find(key, f.module.loc(f.node), f'the part-of-speech total is incremented in {len(tots)} places (expected one, per word synset)')
+    res.inst(key, v.loc(), f'{[t.text[:70] for t in v.totals]}')
+    if len(v.totals) != 1:
+        res.find(key, v.loc(), f'the part-of-speech total is incremented in {len(v.totals)} places (expected one, per word synset)')
         return
-    t = tots[0]
-    if any(isinstance(p, ast.While) for p in parents(t)):
-        res.find(key, f.module.loc(t), 'the part-of-speech total is incremented inside the ancestor walk (once per ancestor instead of once '
-                                       'per word synset): probabilities no longer sum as documented')
-    if norm(t.value) != 'weight':
-        res.find(key, f.module.loc(t), f'the total is incremented by `{norm(t.value)}`, not by the weight')
-    accs = [a for a in _accumulations(f) if norm(a.target.slice) != 'None']
-    for a in accs:
-        if norm(a.value) != 'weight':
-            res.find('accumulation-value', f.module.loc(a), f'synset weight is incremented by `{norm(a.value)}`')
+    t = v.totals[0]
+    if any(c.startswith('while ') for c in t.ctx) or len([c for c in t.ctx if c.startswith('for ')]) != 2:
+        res.find(key, v.loc(t), f'the part-of-speech total is incremented in {t.ctx} (expected: once per word synset, outside the ancestor '
+                                f'walk): probabilities no longer sum as documented')
+    if t.kind != 'aug' or t.op != '+=':
+        res.find(key, v.loc(t), f'the total is written with `{t.text[:70]}` instead of being incremented')
+    key = 'same-weight'
+    res.inst(key, v.loc(t), t.rhs_text[:80])
+    for a in v.accs:
+        if a.rhs_text != t.rhs_text:
+            res.find(key, v.loc(a), f'a synset receives `{a.rhs_text[:70]}` while the total receives `{t.rhs_text[:70]}`')
 
 
 def r4_weight(ctx, res):
-    f = _compute(ctx)
+    v = _view(ctx)
     key = 'weight-formula'
-    w = [n for n in walk_no_nested(f.node) if isinstance(n, ast.Assign) and norm(n.targets[0]) == 'weight']
-    res.inst(key, f.module.loc(f.node), f'{[norm(x.value) for x in w]}')
+    if not v.totals:
+        raise AnalysisError('anchor vanished: increment of the part-of-speech total in ic.compute')
+    t = v.totals[0]
+    fors = [c[4:] for c in t.ctx if c.startswith('for ')]
+    res.inst(key, v.loc(t), t.rhs_text[:90])
     ok = False
-    for a in w:
-        for n in ast.walk(a.value):
-            if isinstance(n, ast.IfExp) and norm(n.test) == 'distribute_weight' and norm(n.body) == 'count / num' and norm(n.orelse) == 'count':
-                ok = True
+    w = t.rhs
+    if len(fors) == 2 and isinstance(w, ast.IfExp) and norm(w.test) == 'distribute_weight':
+        syn = fors[1]
+        accept_b = {f'$1[1] / len({syn})', f'float($1[1] / len({syn}))'}
+        accept_o = {'$1[1]', 'float($1[1])'}
+        ok = canon(w.body) in accept_b and canon(w.orelse) in accept_o
     if not ok:
-        res.find(key, f.module.loc(f.node), 'weight is no longer `count / num if distribute_weight else count`')
-    src = Frag(f.node)
-    key = 'unknown-words-skipped'
-    res.inst(key, f.module.loc(f.node), 'num = len(synsets); if num == 0: continue')
-    if 'num = len(synsets)' not in src or not any(isinstance(n, ast.If) and norm(n.test) in ('num == 0', 'not num', 'not synsets')
-                                                  and isinstance(n.body[-1], ast.Continue) for n in walk_no_nested(f.node)):
-        res.find(key, f.module.loc(f.node), 'words without synsets are no longer skipped before dividing by the number of synsets')
+        res.find(key, v.loc(t), f'the weight of a word synset is `{t.rhs_text[:100]}`; documented: count / (number of synsets of the word) when '
+                                f'distribute_weight, else count')
     key = 'corpus-counter'
-    res.inst(key, f.module.loc(f.node), 'counts = Counter(corpus)')
-    if 'Counter(corpus)' not in src:
-        res.find(key, f.module.loc(f.node), 'the corpus is no longer counted as a multiset (Counter)')
+    res.inst(key, v.loc(), fors[0] if fors else '')
+    if not fors or fors[0] != 'Counter(corpus).items()':
+        res.find(key, v.loc(), f'the outer loop runs over `{fors[0] if fors else None}`: the corpus is no longer counted as a multiset '
+                               f'(Counter(corpus).items() gives (word, count))')
+    key = 'word-synsets'
+    res.inst(key, v.loc(), fors[1] if len(fors) > 1 else '')
+    if len(fors) < 2 or fors[1] != 'wordnet.synsets($1[0])':
+        res.find(key, v.loc(), f'the inner loop runs over `{fors[1] if len(fors) > 1 else None}` instead of the synsets of the word')
+    key = 'unknown-words-skipped'
+    if len(fors) > 1:
+        syn = fors[1]
+        res.inst(key, v.loc(), f'len({syn}) != 0')
+        if not ({f'len({syn}) != 0', syn, f'len({syn}) > 0', f'0 != len({syn})'} & set(t.guards)):
+            # the inner loop does not run for an empty list; the division happens when the weight is computed, so a guard is needed
+            # only if the weight is evaluated outside the inner loop - it is inlined here, hence evaluated inside: accept
+            pass
 
 
 def r5_initialize(ctx, res):
-    f = ctx.repo.func('ic', '_initialize')
-    src = Frag(f.node)
+    f, E = module_summary(ctx, 'ic', '_initialize')
     key = 'initialize'
-    res.inst(key, f.module.loc(f.node), 'smoothing per synset, ADJ_SAT folded, totals')
-    need = ['synset.id: smoothing for synset in wordnet.synsets(pos=pos)', 'wordnet.synsets(pos=ADJ_SAT)', 'freq[ADJ][synset.id] = smoothing',
-            'freq[pos][None] = smoothing']
-    for nd in need:
-        if nd not in src:
-            res.find(key + ':' + nd[:30], f.module.loc(f.node), f'_initialize no longer contains `{nd}`')
-    cf = _compute(ctx)
+    news = [e for e in E if e.kind == 'new']
+    cell = news[0].text if news else '?'
+    got = {(e.kind, e.text.replace(cell, 'F'), e.ctx) for e in E if e.kind in ('store', 'return')}
+    res.inst(key, f.module.loc(f.node), f'{len(got)} effects')
+    need = [
+        (('store', 'F[$1] = {_1.id: smoothing for _1 in wordnet.synsets(pos=$1)}', ('for sorted(IC_PARTS_OF_SPEECH)',)),
+         'every synset of every part of speech starts at the smoothing value'),
+        (('store', 'F[ADJ][$1.id] = smoothing', ('for wordnet.synsets(pos=ADJ_SAT)',)),
+         'satellite adjectives are entered under ADJ'),
+        (('store', 'F[$1][None] = smoothing', ('for sorted(IC_PARTS_OF_SPEECH)',)),
+         'the total of every part of speech starts at the smoothing value'),
+        (('return', 'F', ()), 'the table is returned'),
+    ]
+    for spec, why in need:
+        alt = (spec[0], spec[1], tuple(c.replace('sorted(IC_PARTS_OF_SPEECH)', 'IC_PARTS_OF_SPEECH') for c in spec[2]))
+        if spec not in got and alt not in got:
+            res.find(key + ':' + spec[1][:30], f.module.loc(f.node), f'_initialize no longer does `{spec[1]}` in {spec[2]} ({why})')
+    v = _view(ctx)
     key = 'compute-initializes'
-    res.inst(key, cf.module.loc(cf.node), 'freq = _initialize(wordnet, smoothing)')
-    if '_initialize(wordnet, smoothing)' not in norm(cf.node):
-        res.find(key, cf.module.loc(cf.node), 'compute() no longer starts from _initialize(wordnet, smoothing)')
+    res.inst(key, v.loc(), v.freq or '')
+    if v.freq is None or '<_initialize(wordnet, smoothing)>' not in v.freq:
+        res.find(key, v.loc(), 'compute() no longer starts from _initialize(wordnet, smoothing)')
 
 
 def r6_probability(ctx, res):
-    sp = ctx.repo.func('ic', 'synset_probability')
+    sp, E = module_summary(ctx, 'ic', 'synset_probability')
     key = 'probability-formula'
-    rets = [n for n in walk_no_nested(sp.node) if isinstance(n, ast.Return)]
-    res.inst(key, sp.module.loc(sp.node), norm(rets[0].value) if rets else '')
-    ok = len(rets) == 1 and isinstance(rets[0].value, ast.BinOp) and isinstance(rets[0].value.op, ast.Div) \
-        and norm(rets[0].value.left).endswith('[synset.id]') and norm(rets[0].value.right).endswith('[None]')
-    if not ok:
-        res.find(key, sp.module.loc(sp.node), 'synset_probability is no longer weight(synset) / total(part of speech)')
-    ic = ctx.repo.func('ic', 'information_content')
+    rets = [e for e in E if e.kind == 'return']
+    res.inst(key, sp.module.loc(sp.node), rets[0].text if rets else '')
+    if not (len(rets) == 1 and not rets[0].guards and rets[0].text == 'freq[synset.pos][synset.id] / freq[synset.pos][None]'):
+        res.find(key, sp.module.loc(sp.node), f'synset_probability returns {[r.text for r in rets]}; documented: weight(synset) / total(part of speech)')
+    ic, E = module_summary(ctx, 'ic', 'information_content')
     key = 'ic-formula'
-    rets = [n for n in walk_no_nested(ic.node) if isinstance(n, ast.Return)]
-    res.inst(key, ic.module.loc(ic.node), norm(rets[0].value) if rets else '')
-    if not (len(rets) == 1 and norm(rets[0].value) == '-log(synset_probability(synset, freq))'):
-        res.find(key, ic.module.loc(ic.node), 'information_content is no longer -log(synset_probability(synset, freq))')
+    rets = [e for e in E if e.kind == 'return']
+    res.inst(key, ic.module.loc(ic.node), rets[0].text if rets else '')
+    if not (len(rets) == 1 and not rets[0].guards and rets[0].text in ('-log(synset_probability(synset, freq))',
+                                                                        '-log(freq[synset.pos][synset.id] / freq[synset.pos][None])')):
+        res.find(key, ic.module.loc(ic.node), f'information_content returns {[r.text for r in rets]}; documented: -log(synset_probability(synset, freq))')
 
 
 def r7_cache_purity(ctx, res):
@@ -226,9 +267,7 @@ def r7_cache_purity(ctx, res):
     n = memo_purity(ctx, res, only_module='ic')
     f = _compute(ctx)
     key = 'hypernym-cache-scope'
-    creat = [x for x in walk_no_nested(f.node) if isinstance(x, (ast.Assign, ast.AnnAssign))
-             and norm(x.targets[0] if isinstance(x, ast.Assign) else x.target) == 'hypernym_cache']
-    res.inst(key, f.module.loc(f.node), f'{n} memo sites; cache created at {[c.lineno for c in creat]}')
+    res.inst(key, f.module.loc(f.node), f'{n} memo sites')
     if n < 1:
         # without a cache the walk must call hypernyms() directly
         if '.hypernyms()' not in norm(f.node):
